@@ -3,7 +3,7 @@ import json, os
 import vlib
 
 
-ENGINE_FILES = ["zz_verif_engine_test.go", "zz_verif_engine_monitor_test.go"]
+ENGINE_FILES = ["zz_verif_engine_test.go", "zz_verif_engine_monitor_test.go", "zz_verif_engine_replay_test.go"]
 
 
 def classify_engine(op, impl):
@@ -63,3 +63,43 @@ def first_divergence(impl, model):
         if a[i] != b[i]:
             return f"op#{i}: impl={a[i]!r} model={b[i]!r}"
     return f"length impl={len(a)} model={len(b)}"
+
+
+def replay_engine(prop, path):
+    """./check Cxx --replay <file>: re-run the recorded op line(s) on the REAL engine and on the model; print both and the monitors."""
+    import sys
+    ctx = vlib.Ctx(prop, "quick")
+    try:
+        d = json.load(open(path))
+        lines = []
+        def collect(o):
+            if isinstance(o, dict):
+                for v in o.values():
+                    collect(v)
+            elif isinstance(o, list):
+                for v in o:
+                    collect(v)
+            elif isinstance(o, str) and o.startswith("engine "):
+                lines.append(o)
+        collect(d)
+        for b in d.get("broken", []):
+            for tok in b.get("detail", "").split("ops="):
+                if tok.startswith("engine "):
+                    lines.append(tok.strip())
+        if not lines:
+            print("no engine op line in", path); return 2
+        rp = os.path.join(ctx.tmp, "replay.txt")
+        open(rp, "w").write("\n".join(dict.fromkeys(lines)) + "\n")
+        exe = ctx.build_harness("server", only=ENGINE_FILES)
+        outdir = ctx.run_harness(exe, "engine-replay", 1, extra={"VERIF_REPLAY": rp})
+        dis = ctx.diff(outdir, "engine-replay")
+        for (i, op, impl, model) in dis or []:
+            print("MODEL/IMPL DISAGREE:", first_divergence(impl, model))
+        n = 0
+        for l in open(os.path.join(outdir, "engine-replay.mon")):
+            m = json.loads(l); n += 1
+            print("MONITOR", m["signature"], "|", m["what"])
+        print(f"replayed {len(lines)} line(s): {len(dis or [])} disagreement(s), {n} monitor failure(s)")
+        return 1 if (dis or n) else 0
+    finally:
+        ctx.cleanup()
